@@ -16,7 +16,7 @@ import numpy as np
 LEVEL = "exploration"
 EXHAUSTIVE = {"quick": False, "thorough": False}
 RULE = (
-    "registry of 70 call forms (arithmetic, comparisons, astype/img_as/to_trichromatic(return_image=True)/to_monochromatic, "
+    "registry of 78 call forms (arithmetic, comparisons, astype/img_as/to_trichromatic(return_image=True)/to_monochromatic, "
     "subregion/time_slice/time_interval/slice, weight, superpose, stack, append, Resize/resize/equalize_voxel_size/"
     "uniform_refinement, reduce_axis/extrude_along_axis, models, Geometry.integrate/normalize, EMD, wasserstein_distance, "
     "zeros_like/ones_like, bounding_box, random_patches, coordinate conversions, layout helpers, Image(...) built from "
@@ -115,6 +115,14 @@ def build_registry(darsia, rng):
     add("to_monochromatic_gray", [O], lambda: O.to_monochromatic("gray"))
     add("to_monochromatic_red", [O], lambda: O.to_monochromatic("red"))
     add("to_monochromatic_value", [Of], lambda: Of.to_monochromatic("value"))
+    Od = img2(shp, dtype=np.float64, payload="vector", cls=darsia.OpticalImage)
+    Ods = img2(shp, dtype=np.float64, payload="vector", series=True, cls=darsia.OpticalImage)
+    Ofs = img2(shp, dtype=np.float32, payload="vector", series=True, cls=darsia.OpticalImage)
+    add("to_trichromatic_hsv_float64", [Od], lambda: Od.to_trichromatic("HSV", return_image=True))
+    add("to_trichromatic_bgr_float64_series", [Ods], lambda: Ods.to_trichromatic("BGR", return_image=True))
+    add("to_trichromatic_hls_float32_series", [Ofs], lambda: Ofs.to_trichromatic("HLS", return_image=True))
+    add("to_monochromatic_gray_float64", [Od], lambda: Od.to_monochromatic("gray"))
+    add("to_monochromatic_hue_float64_series", [Ods], lambda: Ods.to_monochromatic("hue"))
     # ---- extraction
     sl = (slice(1, shp[0] - 1), slice(0, shp[1] - 1))
     vox = darsia.make_voxel([[0, 1], [shp[0] - 1, shp[1]]])
@@ -142,6 +150,21 @@ def build_registry(darsia, rng):
     for k, im in enumerate(st):
         im.time = float(k)
     add("stack", [st] + st, lambda: darsia.stack(st))
+    # a series first, single images after it (relative times, then dates)
+    ser_t = img2(shp, series=True)
+    late = img2(shp)
+    late.time = 7.0
+    stl = [ser_t, late]
+    add("stack_series_then_single_times", [stl, ser_t, late], lambda: darsia.stack(stl))
+    d0 = datetime(2024, 3, 1, 8, 0, 0)
+    ser_d = darsia.Image(rng.random(shp + (2,)), space_dim=2, dimensions=[float(s) * 0.5 for s in shp], scalar=True, series=True, date=[d0, d0 + timedelta(hours=30)])
+    late_d = darsia.Image(rng.random(shp), space_dim=2, dimensions=[float(s) * 0.5 for s in shp], scalar=True, date=d0 + timedelta(days=3, seconds=0.25))
+    std = [ser_d, late_d]
+    add("stack_series_then_single_dates", [std, ser_d, late_d], lambda: darsia.stack(std))
+    ser_a, ser_b = img2(shp, series=True), img2(shp, series=True)
+    ser_b.time = [10.0, 11.0, 12.5]
+    sts = [ser_a, ser_b]
+    add("stack_series_then_series", [sts, ser_a, ser_b], lambda: darsia.stack(sts))
     host, guest = img2(shp), img2(shp)
     add("append_argument", [guest], lambda: host.append(guest))
     # ---- resizing / reduction
@@ -331,7 +354,7 @@ def run_shard(spec, R):
 
 MANIFEST = {
     "technique": "snapshot monitor (deep content snapshots of every argument, of all live operands in call chains, and of the global numpy/python RNG state) around a fixed registry of call forms; array-arithmetic oracle",
-    "level_text": "Every call form of a 70-entry registry is executed on several random operand sets of every image kind with all arguments and the global random state snapshotted before and compared after; random chains of up to five calls on a shared operand pool (results fed back, so that metadata containers shared between images become observable) snapshot the whole pool at every step. Arithmetic results are compared bitwise with raw-array arithmetic for the documented scalar types.",
+    "level_text": "Every call form of a 78-entry registry is executed on several random operand sets of every image kind with all arguments and the global random state snapshotted before and compared after; random chains of up to five calls on a shared operand pool (results fed back, so that metadata containers shared between images become observable) snapshot the whole pool at every step. Arithmetic results are compared bitwise with raw-array arithmetic for the documented scalar types.",
     "level_note": "The registry is a fixed list (functions not in it are not observed); Image.append modifies its receiver by documentation, only its argument is judged.",
     "design_ref": "DESIGN.md section 3, C17",
 }
